@@ -85,6 +85,7 @@ type fakeRPC struct {
 	answer []byte
 	calls  int
 	bad    string
+	refuse error // the node's answer instead of the trace
 }
 
 func (f *fakeRPC) Call(result any, method string, args ...any) error {
@@ -104,6 +105,9 @@ func (f *fakeRPC) Call(result any, method string, args ...any) error {
 	if cfg, err := json.Marshal(args[1]); err != nil || string(cfg) != `{"tracer":"callTracer"}` {
 		f.bad = fmt.Sprintf("tracer config %s", cfg)
 		return fmt.Errorf("fake node: unsupported tracer")
+	}
+	if f.refuse != nil {
+		return f.refuse
 	}
 	return json.Unmarshal(f.answer, result)
 }
@@ -176,7 +180,24 @@ func run(c *mc.Ctx, u mc.Unit) {
 	// the same event and trace through the real ClaimEvent log handler of the event's contract generation (on the
 	// smaller trees: what the handler adds is the parsing of the event log, which does not depend on the tree)
 	if len(p.Shape) <= handlerMaxFrames {
-		hclaim, herr, extra := viaHandler(p.Flavour, tx, traceJSON(fs))
+		// first the node refuses the trace request once (the kind rotates over the units): the handler must fail and
+		// append nothing; the same handler objects then handle the event with the trace available
+		kind := p.Flavour
+		for _, k := range p.Shape {
+			kind += int(k)
+		}
+		if refuse := refusals[(kind%len(refusals)+len(refusals))%len(refusals)]; refuse != nil {
+			rclaim, rerr, rextra := viaHandler(p.Flavour, tx, traceJSON(fs), refuse)
+			c.Witness("trace_requests_refused_by_the_node")
+			if rerr != nil && rextra != "" {
+				c.Failf("handler/misbehaves", "event %s tree %s, trace request refused with %q:%s", flavNames[p.Flavour], describeTree(fs), refuse, rextra)
+			}
+			if rerr == nil {
+				c.Failf("handler/claim-recorded-although-the-trace-request-failed", "event %s tree %s: the node answered the trace request with %q; the log handler reported no error (appended claim: %v%s)",
+					flavNames[p.Flavour], describeTree(fs), refuse, rclaim != nil, rextra)
+			}
+		}
+		hclaim, herr, extra := viaHandler(p.Flavour, tx, traceJSON(fs), nil)
 		if extra != "" {
 			c.Failf("handler/misbehaves", "event %s tree %s:%s", flavNames[p.Flavour], tree, extra)
 		}
